@@ -42,7 +42,7 @@ def jobs(tier, seed):
         c1 = CS.rand_contract(rng, i1, o1, alphabet, na=(0, 1, 2), ng=(1, 2))
         c2 = CS.rand_contract(rng, i2, o2, alphabet, na=(0, 1, 2), ng=(1, 2))
         share = []
-        mode = rng.choice(["plain", "dup-g", "dup-a", "scaled-g", "plain", "near-dup-g"])
+        mode = rng.choice(["plain", "dup-g", "dup-a", "scaled-g", "plain", "near-dup-g", "g-repeats-a", "g-repeats-a"])
         # duplicate / scale a term of c1 into c2 where the interface allows it
         if mode == "dup-g":
             cand = [t for t in c1["g"] if set(t) <= set(i2 + o2)]
@@ -56,6 +56,12 @@ def jobs(tier, seed):
                 c2["a"].append(dict(cand[0]))
                 if rng.random() < 0.5:
                     share.append(["a", c1["a"].index(cand[0]), len(c2["a"]) - 1])
+        elif mode == "g-repeats-a":
+            # one viewpoint states as a guarantee (first in its list) what the other assumes, same constant
+            cand = [t for t in c1["a"] if set(t) <= set(i2 + o2)]
+            if cand:
+                c2["g"].insert(0, dict(cand[0]))
+                share.append(["ag", c1["a"].index(cand[0]), 0])
         elif mode == "near-dup-g":
             # the same guarantee up to the sixth digit of one coefficient: two different constraints
             cand = [t for t in c1["g"] if set(t) <= set(i2 + o2)]
@@ -80,7 +86,7 @@ def build(ctx, job):
     a2 = B.mk_tl(ctx, job["c2"]["a"], "qa")
     g2 = B.mk_tl(ctx, job["c2"]["g"], "qg")
     for which, i1, i2 in job["share"]:
-        src = (c1.a if which == "a" else c1.g).terms[i1]
+        src = (c1.a if which in ("a", "ag") else c1.g).terms[i1]
         dst = a2 if which == "a" else g2
         dst.terms[i2] = P.PolyhedralTerm(dict(dst.terms[i2].variables), src.constant)
     c2 = PolyhedralIoContract(a2, g2, [B.Var(n) for n in job["c2"]["in"]], [B.Var(n) for n in job["c2"]["out"]], simplify=False)
